@@ -161,7 +161,7 @@ class C18(Check):
               "evaluations are the same call with the same state / options; they may differ only through the perturbed model value",
         "M3": "sequential and parallel execution use the same worker with the same arguments; results are keyed by the scanned parameter",
     }
-    floors = {"M1": 4, "M2": 9, "M3": 2, "M4": 3}
+    floors = {"M1": 7, "M2": 9, "M3": 2, "M4": 3}
     decided = [
         "every routine leaves the model's parameter and initial values as it found them (sequential execution)",
         "coefficients are central difference quotients with relative displacement; scaled by value/flux at the unperturbed state",
@@ -177,13 +177,25 @@ class C18(Check):
             raise AnalysisError(f"{MOD}: expected >= 4 routines taking `model`, found {[f.name for f in fns]}")
         for fn in fns:
             self.m1(fn)
+        # the Monte-Carlo wrappers of the same routines (mc.py): they hand the caller's model to the row wrapper, which works on a copy;
+        # whatever they write into the model themselves must be undone as well
+        mc = self.prog.module("mc.py")
+        n_mc = 0
+        for name, f in mc.functions.items():
+            if "." in name or "model" not in [a.arg for a in f.args.args + f.args.kwonlyargs]:
+                continue
+            if any(isinstance(x, ast.Attribute) and norm(x).startswith("mca.") for x in ast.walk(f)):
+                n_mc += 1
+                self.m1(f, "mc.py")
+        if n_mc < 3:
+            raise AnalysisError(f"mc.py: expected >= 3 Monte-Carlo wrappers of mca routines, found {n_mc}")
         for name, up, lo in (("variable_elasticities", "upper", "lower"), ("parameter_elasticities", "upper", "lower"),
                              ("_response_coefficient_worker", "upper", "lower")):
             self.m2(mod.func(name))
         self.m3(mod)
         self.m4(mod)
 
-    def m1(self, fn) -> None:
+    def m1(self, fn, rel: str = MOD) -> None:
         q = fn.name
         pi = PerturbInterp("model")
         out = pi.run_function(fn, PS())
@@ -195,16 +207,16 @@ class C18(Check):
         if leaks:
             for (kind, key), line in leaks.items():
                 self.violated(
-                    "M1", MOD, q, f"unrestored {kind}:{key}", line,
+                    "M1", rel, q, f"unrestored {kind}:{key}", line,
                     f"the caller's model is left modified on a normal exit: {kind} `{key}` written at line {line} is never restored "
                     "from a value saved before the perturbation",
-                    witness="mca.response_coefficients(m, variables={'x': 5.0}, parallel=False); m.get_initial_conditions()['x'] == 5.0 afterwards"
+                    witness=f"{'mc' if rel == 'mc.py' else 'mca'}.{q}(m, ..., variables={{'x': 5.0}}); m.get_initial_conditions()['x'] == 5.0 afterwards"
                     if kind == "variables" else "model.get_parameter_values() differs before/after the call",
                 )
         else:
             n_w = sum(1 for c in ast.walk(fn) if isinstance(c, ast.Call) and isinstance(c.func, ast.Attribute)
                       and norm(c.func.value) == "model" and c.func.attr not in QUERIES)
-            self.holds("M1", MOD, q, "restored-on-exit", fn, f"{n_w} model write(s); all restored from saved values on {len(out.returns)} exit state(s)")
+            self.holds("M1", rel, q, "restored-on-exit", fn, f"{n_w} model write(s); all restored from saved values on {len(out.returns)} exit state(s)")
 
     # ------------------------------------------------------------------
     def coefficients(self, fn):
